@@ -25,6 +25,21 @@ ASSUMPTIONS = [
 ]
 
 
+DEC_KW: dict = {}       # options of every decoder the format comparison builds (set by with_options)
+
+
+def with_options(kw, fn, *a):
+    """Run fn(*a) with every decoder built with the options kw."""
+    saved = dict(DEC_KW)
+    DEC_KW.clear()
+    DEC_KW.update(kw)
+    try:
+        return fn(*a)
+    finally:
+        DEC_KW.clear()
+        DEC_KW.update(saved)
+
+
 def canon(m):
     if m is None:
         return None
@@ -41,7 +56,7 @@ def run_single(pgn, src, dest, prio, data, variant):
 
     def guard(name, fn):
         try:
-            out[name] = canon(fn(NMEA2000Decoder()))
+            out[name] = canon(fn(NMEA2000Decoder(**DEC_KW)))
         except Exception as e:
             out[name] = None
     guard("ebyte", lambda d: d.decode_tcp(wire.ebyte(ident, data, pad)))
@@ -65,7 +80,7 @@ def run_fast(pgn, src, dest, prio, payload, seq, variant):
 
     def frames_through(name, fn):
         try:
-            d = NMEA2000Decoder()
+            d = NMEA2000Decoder(**DEC_KW)
             r = None
             for i, fr in enumerate(frames):
                 if i and warp:
@@ -82,16 +97,32 @@ def run_fast(pgn, src, dest, prio, payload, seq, variant):
     frames_through("yd", lambda d, fr: d.decode_yacht_devices_string(wire.yd(ident, fr, direction, up, ts_y)))
     frames_through("plain-frames", lambda d, fr: d.decode_basic_string(wire.plain(pgn, src, dest, prio, fr, ts_p, up)))
     try:
-        out["actisense"] = canon(NMEA2000Decoder().decode_actisense_string(wire.actisense(pgn, src, dest, prio, payload, ts_a, up)))
+        out["actisense"] = canon(NMEA2000Decoder(**DEC_KW).decode_actisense_string(wire.actisense(pgn, src, dest, prio, payload, ts_a, up)))
     except Exception:
         out["actisense"] = None
+    # the caller reads every packet into ONE reusable buffer (recv_into / readinto style) and overwrites it for the next packet
+    for name, size, render, call in (("ebyte-reused-buffer", 13, lambda fr: wire.ebyte(ident, fr, pad), lambda d, b: d.decode_tcp(b)),
+                                     ("usb-reused-buffer", 20, lambda fr: wire.usb(ident, fr, pad), lambda d, b: d.decode_usb(b))):
+        try:
+            d = NMEA2000Decoder(**DEC_KW)
+            buf = bytearray(size)
+            r = None
+            for i, fr in enumerate(frames):
+                buf[:] = render(fr)
+                r = call(d, buf)
+                buf[:] = b"\xee" * size           # the buffer is the caller's: it is scribbled over before the next read
+                if i < len(frames) - 1 and r is not None:
+                    break
+            out[name] = canon(r) if (r is None or i == len(frames) - 1) else ("early", canon(r))
+        except Exception:
+            out[name] = None
     # address claims arrive around and between the frames: a first claim of some address X before the message, another claim of X with a
     # different NAME in the middle.  X is the sender itself, the destination, or an address whose decimal digits are part of theirs.
     from .. import traffic
     cands = [src, dest if dest < 254 else src, int(str(src)[0]), int(str(src)[:2]), 2, 25, 13, 1, int(str(dest)[:1])]
     x = min(cands[(seq + len(payload)) % len(cands)], 253)
     try:
-        d = NMEA2000Decoder()
+        d = NMEA2000Decoder(**DEC_KW)
         d.decode_tcp(wire.ebyte(wire.ident(60928, x, 255, 6), traffic.iso_name(41, 137).to_bytes(8, "little")))
         r = None
         for i, fr in enumerate(frames):
@@ -107,7 +138,7 @@ def run_fast(pgn, src, dest, prio, payload, seq, variant):
     # counter), and one that sees it the other way round: the order of formats on a decoder must not matter
     frames2 = wire.segment(payload, (seq + 1) % 8)
     try:
-        d = NMEA2000Decoder()
+        d = NMEA2000Decoder(**DEC_KW)
         d.decode_actisense_string(wire.actisense(pgn, src, dest, prio, payload, ts_a, up))
         r = None
         for fr in frames2:
@@ -116,14 +147,14 @@ def run_fast(pgn, src, dest, prio, payload, seq, variant):
     except Exception:
         out["ebyte-after-actisense"] = None
     try:
-        d = NMEA2000Decoder()
+        d = NMEA2000Decoder(**DEC_KW)
         for fr in frames2:
             d.decode_usb(wire.usb(ident, fr, pad))
         out["plain-combined-after-usb"] = canon(d.decode_basic_string(wire.plain(pgn, src, dest, prio, payload, ts_p, up), already_combined=True))
     except Exception:
         out["plain-combined-after-usb"] = None
     try:
-        out["plain-combined"] = canon(NMEA2000Decoder().decode_basic_string(wire.plain(pgn, src, dest, prio, payload, ts_p, up), already_combined=True))
+        out["plain-combined"] = canon(NMEA2000Decoder(**DEC_KW).decode_basic_string(wire.plain(pgn, src, dest, prio, payload, ts_p, up), already_combined=True))
     except Exception:
         out["plain-combined"] = None
     return out
@@ -154,7 +185,7 @@ def run_interleaved(pgn, prio, a, b):
     """a, b = (src, dest, payload, seq): two messages of one PGN with different addressing, frames alternating on ONE decoder; each must
     equal its pre-assembled delivery."""
     from nmea2000.decoder import NMEA2000Decoder
-    d = NMEA2000Decoder()
+    d = NMEA2000Decoder(**DEC_KW)
     fa, fb = wire.segment(a[2], a[3]), wire.segment(b[2], b[3])
     got = {"a": None, "b": None}
     order = []
@@ -175,7 +206,7 @@ def run_interleaved(pgn, prio, a, b):
     out = {}
     for name, m in (("a", a), ("b", b)):
         try:
-            whole = canon(NMEA2000Decoder().decode_basic_string(wire.plain(pgn, m[0], m[1], prio, m[2], "2024-01-02-03:04:05.678", False), already_combined=True))
+            whole = canon(NMEA2000Decoder(**DEC_KW).decode_basic_string(wire.plain(pgn, m[0], m[1], prio, m[2], "2024-01-02-03:04:05.678", False), already_combined=True))
         except Exception:
             whole = None
         out[name] = {"ebyte-interleaved": got[name], "plain-combined": whole}
@@ -232,7 +263,9 @@ def _work(ctx: Ctx, item):
                 case = {"pgn": d.pgn, "source": src, "destination": dest, "priority": prio, "data_hex": data.hex(), "variant": list(variant), "fast": False}
                 outs = run_single(d.pgn, src, dest, prio, data, variant)
                 ctx.klass("single_all_decode" if all(v is not None for v in outs.values()) else "single_some_none")
-                return compare(outs, case)
+                # the same through decoders with network mapping on (the sender has not claimed: the discovery window applies to every format alike)
+                outs2 = with_options({"build_network_map": True}, run_single, d.pgn, src, dest, prio, data, variant)
+                return compare(outs, case) + [(b + "|network-map", w, dict(c, network_map=True)) for b, w, c in compare(outs2, case)]
             ctx.hyp(one, st.integers(0, 253), dests, st.integers(0, 7), data_st, variants, max_examples=n, name="single")
         else:
             pl = st.one_of(gen.payloads(d, mode="accepted", extra_bytes=False).map(lambda p: p[0].to_bytes(p[1], "little")[:223]),
@@ -246,7 +279,9 @@ def _work(ctx: Ctx, item):
                         "variant": list(variant), "fast": True}
                 outs = run_fast(d.pgn, src, dest, prio, payload, seq, variant)
                 ctx.klass("fast_all_decode" if all(v is not None for v in outs.values()) else "fast_some_none")
-                return compare(outs, case)
+                outs2 = with_options({"build_network_map": True}, run_fast, d.pgn, src, dest, prio, payload, seq, variant)
+                outs2.pop("ebyte-with-address-claims", None)      # there the sender may have claimed: legitimately not withheld
+                return compare(outs, case) + [(b + "|network-map", w, dict(c, network_map=True)) for b, w, c in compare(outs2, case)]
             ctx.hyp(onef, st.integers(0, 253), dests, st.integers(0, 7), pl, st.integers(0, 7), variants, max_examples=n, name="fast")
 
             # two messages of the PGN from confusable addressings, frames alternating on one decoder
@@ -299,6 +334,13 @@ def replay(ctx: Ctx, case):
         return res
     data = bytes.fromhex(case["data_hex"])
     v = tuple(case["variant"])
+    kw = {"build_network_map": True} if case.get("network_map") else {}
+    sfx = "|network-map" if case.get("network_map") else ""
     if case.get("fast"):
-        return compare(run_fast(case["pgn"], case["source"], case["destination"], case["priority"], data, case["seq"], v), case)
-    return compare(run_single(case["pgn"], case["source"], case["destination"], case["priority"], data, v), case)
+        outs = with_options(kw, run_fast, case["pgn"], case["source"], case["destination"], case["priority"], data, case["seq"], v)
+        if kw:
+            outs.pop("ebyte-with-address-claims", None)
+        res = compare(outs, case)
+    else:
+        res = compare(with_options(kw, run_single, case["pgn"], case["source"], case["destination"], case["priority"], data, v), case)
+    return [(b + sfx, w, c) for b, w, c in res]
